@@ -307,9 +307,14 @@ def bic_shard(args):
     return part.done()
 
 
-def optimised_child(tier):
-    """Runs inside ``python -O``: all entry points on core texts of every country, the nationally
-    valid families, German listed banks, BIC bases."""
+INTERPRETERS = {"python -O": ["-O"], "python -W error": ["-W", "error"]}
+
+
+def optimised_child(arg):
+    """Runs inside a brand-new interpreter started with other options (``python -O``, ``python -W
+    error``): all entry points on core texts of every country, the nationally valid families, German
+    listed banks, BIC bases."""
+    tier, label = arg if isinstance(arg, tuple) else (arg, "python -O")
     part = par.Part()
     small = ["0", "A", "a", "-", " ", "٣"]
     for country in sorted(reg.countries()):
@@ -318,36 +323,39 @@ def optimised_child(tier):
         if nv:
             blist.append(("natvalid", bases.iban_text(country, nv)))
         for filler, base in blist:
-            for gen in (families.iban_checkpairs(base), families.single_edits(base, small)):
+            spelled = [("spelling:lower", base.lower()),
+                       ("spelling:printed-lower", " ".join(base[i:i + 4] for i in range(0, len(base), 4)).lower())]
+            for gen in (families.iban_checkpairs(base), families.single_edits(base, small), spelled):
                 for fam, text in gen:
                     part["evals"] += 7
-                    part.seen.add(hash(("-O", text)))
+                    part.seen.add(hash((label, text)))
                     for sig, exp, obs in judge_iban(text):
-                        part.violation(f"{sig} [python -O]", {"kind": "iban_text", "text": text,
-                                       "how": f"{fam} from {base}, python -O", "interpreter": "-O"}, exp, obs)
+                        part.violation(f"{sig} [{label}]", {"kind": "iban_text", "text": text,
+                                       "how": f"{fam} from {base}, {label}", "interpreter": label}, exp, obs)
     german_method_cases(part, "quick")
     for b in c04.bases()[:6]:
-        for fam, text in families.single_edits(b, small):
+        for fam, text in list(families.single_edits(b, small)) + [("spelling:lower", b.lower())]:
             part["evals"] += 5
-            part.seen.add(hash(("-O bic", text)))
+            part.seen.add(hash((label + " bic", text)))
             for sig, exp, obs in judge_bic(text):
-                part.violation(f"{sig} [python -O]", {"kind": "bic_text", "text": text,
-                               "how": "python -O", "interpreter": "-O"}, exp, obs)
+                part.violation(f"{sig} [{label}]", {"kind": "bic_text", "text": text,
+                               "how": label, "interpreter": label}, exp, obs)
     part.stat("optimised_interpreter_runs")
     return part.done()
 
 
 def shard(args):
-    if args[0] == "python -O":
-        return par.in_interpreter(["-O"], "mc.props.c05", "optimised_child", args[1])
+    if args[0] in INTERPRETERS:
+        return par.in_interpreter(INTERPRETERS[args[0]], "mc.props.c05", "optimised_child", (args[1], args[0]))
     return bic_shard(args[1:]) if args[0] == "bic" else iban_shard(args[1:])
 
 
 def replay(case: dict) -> dict:
-    if case.get("interpreter") == "-O":
-        part = par.in_interpreter(["-O"], "mc.props.c05", "optimised_child", "quick")
+    if case.get("interpreter"):
+        label = "python -O" if case["interpreter"] == "-O" else case["interpreter"]
+        part = par.in_interpreter(INTERPRETERS[label], "mc.props.c05", "optimised_child", ("quick", label))
         hit = [v for v in part["violations"] if v["case"]["text"] == case["text"]]
-        return {"ok": not hit, "observed": [h["observed"] for h in hit[:3]], "interpreter": "python -O"}
+        return {"ok": not hit, "observed": [h["observed"] for h in hit[:3]], "interpreter": label}
     probs = judge_iban(case["text"]) if case["kind"] == "iban_text" else judge_bic(case["text"])
     return {"ok": not probs, "observed": [(p[0], p[2]) for p in probs],
             "expected": [p[1] for p in probs]}
@@ -356,7 +364,7 @@ def replay(case: dict) -> dict:
 def main(tier: str) -> int:
     run = report.Run(PID, tier, "exploration", RULE)
     countries = sorted(reg.countries())
-    shards = [("python -O", tier)] + [("iban", c, tier) for c in countries] + [("bic", b, tier) for b in c04.bases()]
+    shards = [(lb, tier) for lb in INTERPRETERS] + [("iban", c, tier) for c in countries] + [("bic", b, tier) for b in c04.bases()]
     par.run_shards(run, shard, shards)
     run.extra.update({"countries": len(countries), "bic_bases": len(c04.bases()),
                       "entry_points": {"iban": 7, "bic": 5},
